@@ -680,3 +680,60 @@ Theorem C04_example_all_lines_replay :
   map (fun l => match Reach1.replay SearchNeg5.q4 l with Ok _ => length l | _ => 0%nat end) pvs = [3%nat; 3%nat; 3%nat].
 Proof. exact SearchPv4.ex_all_lines_replay. Qed.
 Print Assumptions C04_example_all_lines_replay.
+
+
+(* ================================================================================================================================
+   (9) Cfg.DedupSymmetry: the option lattice of C04 includes the symmetry de-duplication of pvSearch.  Model: coq/SearchDedup.v (the
+   engine of Search.v with the per-node cache; with the option off it IS Search.v's: C05_dedup_off), validated by the C05 check and by the
+   CASE RAND lines of this check that carry the option (window 0: GetMove = the first move of Analyze).  Proofs: SearchDedupLegal.v.
+   The theorems of block (8) hold verbatim for it: the cache is empty when the first successor arrives, so the first successor is always
+   searched, and a skipped successor is never searched, so it cannot become best[0].
+   ================================================================================================================================ *)
+Require SearchDedup SearchDedupInst SearchDedupLegal SearchDedupEx SearchDedupLegalEx.
+
+(* EVERY configuration (any table, null move, slide reduction, multi-cut, sorting, cancellation point, the option on or off), either
+   built-in evaluator, any engine state satisfying SJ: the state afterwards satisfies SJ again; the reported line is the seed of an exact
+   root entry exactly when the reported depth is the seed's, and otherwise starts with a move that MovePreallocated accepts at p; an
+   uncancelled call that was allowed an iteration has completed one *)
+Theorem C04_dedup_analyze_first_move_legal : forall cfg, SearchNeg5.builtin_eval cfg ->
+  forall k dedup s p sk pv v d acc c,
+  SearchLegal2.SJ s -> SearchNeg2.base_ok p -> Search.is_over p = false -> SearchLegal3.withinP (Z.to_nat (Search.c_depth cfg)) p ->
+  (move p + Search.c_depth cfg <= EvalSpec.max_terminal_ply)%Z ->
+  SearchDedup.analyze_gen_d Generated.Consts.gen_basis cfg k dedup s p = (sk, (pv, v, d, acc, c)) ->
+  let '(base, ms0, v0) := Search.az_root false (Search.az_start s) p in
+  SearchLegal2.SJ sk /\ ((d = base /\ pv = ms0) \/ (base < d /\ SearchLegal3.head_legal p pv))%Z /\ (c = false -> base < Search.c_depth cfg -> base < d)%Z.
+Proof. exact SearchDedupLegal.analyze_d_first_move_legal. Qed.
+Print Assumptions C04_dedup_analyze_first_move_legal.
+
+(* without a table: every reported line starts with a legal move, and an uncancelled call with a positive depth reports one *)
+Theorem C04_dedup_analyze_first_move_legal_no_table : forall cfg, SearchNeg5.builtin_eval cfg ->
+  forall k dedup s p sk pv v d acc c,
+  SearchExact.SI s -> SearchNeg2.base_ok p -> Search.is_over p = false -> SearchLegal3.withinP (Z.to_nat (Search.c_depth cfg)) p ->
+  (move p + Search.c_depth cfg <= EvalSpec.max_terminal_ply)%Z ->
+  SearchDedup.analyze_gen_d Generated.Consts.gen_basis cfg k dedup s p = (sk, (pv, v, d, acc, c)) ->
+  (pv = [] \/ SearchLegal3.head_legal p pv) /\ (c = false -> (0 < Search.c_depth cfg)%Z -> SearchLegal3.head_legal p pv).
+Proof. exact SearchDedupLegal.analyze_d_first_move_legal_notable. Qed.
+Print Assumptions C04_dedup_analyze_first_move_legal_no_table.
+
+(* the abstract form: any hash basis, any evaluator bounded by the root window, any position sets closed under moves and null moves *)
+Theorem C04_dedup_analyze_legal_abstract : forall basis cfg k dedup (Pos : nat -> position -> Prop),
+  (forall d p, Pos (S d) p -> Pos d p) ->
+  (forall d p m q, Pos (S d) p -> Search.is_over p = false -> SearchGen.okm m -> Search.try_move basis p m = Some q -> Pos d q) ->
+  (forall d p, Pos (S d) p -> Search.is_over p = false -> Pos d (Search.pass_move p)) ->
+  (forall d p, Pos (S d) p -> Search.is_over p = false -> exists m q, In m (GameOver.all_moves p) /\ Search.try_move basis p m = Some q) ->
+  (forall d p, Pos d p -> SearchLegal2.okv (Search.c_eval cfg p)) ->
+  forall s p sk pv v d acc c, SearchLegal2.SJ s -> (forall d, (Z.of_nat d <= Search.c_depth cfg)%Z -> Pos d p) -> Search.is_over p = false ->
+  SearchDedup.analyze_gen_d basis cfg k dedup s p = (sk, (pv, v, d, acc, c)) ->
+  let '(base, ms0, v0) := Search.az_root false (Search.az_start s) p in
+  SearchLegal2.SJ sk /\ SearchExact.okl pv /\ ((d = base /\ pv = ms0) \/ (base < d /\ SearchLegal2.head_ok basis p pv))%Z /\
+  (c = false -> base < Search.c_depth cfg -> base < d)%Z.
+Proof. exact SearchDedupLegal.analyze_d_legal. Qed.
+Print Assumptions C04_dedup_analyze_legal_abstract.
+
+(* non-vacuity: the empty 3x3 board, depth 2, EvaluateWinner, no table, the option ON (computed run of SearchDedupEx.v) *)
+Theorem C04_dedup_example :
+  SearchNeg5.builtin_eval SearchDedupEx.cfg_dd /\ SearchNeg2.base_ok CancelEx.start3 /\ Search.is_over CancelEx.start3 = false /\
+  SearchLegal3.withinP (Z.to_nat (Search.c_depth SearchDedupEx.cfg_dd)) CancelEx.start3 /\
+  SearchLegal3.head_legal CancelEx.start3 (SearchC.r_pv (snd SearchDedupEx.run_on)) /\ SearchC.r_canceled (snd SearchDedupEx.run_on) = false.
+Proof. exact SearchDedupLegalEx.dedup_legal_applies. Qed.
+Print Assumptions C04_dedup_example.
